@@ -58,6 +58,15 @@ class SymClock:
         self.instants = []
         self.datetime = self
 
+    def time(self):
+        return self.now().t
+
+    def perf_counter(self):
+        return self.now().t
+
+    def monotonic(self):
+        return self.now().t
+
     def now(self):
         e = S.engine()
         t = e.fresh_real('clock')
@@ -78,7 +87,14 @@ def install_shadows(ns, clock=None):
     ns.lp_solver.max = S.sym_max
     ns.lp_solver.min = S.sym_min
     if clock is not None:
-        ns.solver.datetime = clock
+        # every repository module that reads the wall clock sees the same symbolic clock
+        import types as _types
+        for name, mod in vars(ns).items():
+            if isinstance(mod, _types.ModuleType) and '/solver/' in (getattr(mod, '__file__', '') or ''):
+                if hasattr(mod, 'datetime') or mod is ns.solver:
+                    mod.datetime = clock
+                if hasattr(mod, 'time') and isinstance(getattr(mod, 'time'), _types.ModuleType):
+                    mod.time = clock
 
 
 def sym_numerics(I, prefix='q'):
